@@ -23,13 +23,14 @@ Proof.
                                (conj (to_stored_stored_fields r) (trep_stored_fields r))).
 Qed.
 
-(** Same served assets, for every asset layout and every good cache directory (every file absent
-    or as written by write mode for the same files - present, absent, partially present): the
+(** Same served assets, for every asset layout and every cache directory in which each file is
+    absent, as written by write mode for the same files, unreadable (truncated, corrupt gzip) or
+    undecodable (cut JSON) - present, absent, partially present, truncated, corrupt: the
     cache-started server registers and admits the same assets with the same stored fields,
     LoopDurMS, SegmentDurMS, reference and MPD list as the scanning server; start-up errors and
     panics coincide; the directory is not modified. *)
 Theorem C15_same_responses : forall l c c0,
-  cache_good B enc c l ->
+  cache_good B enc dec c l ->
   all_rel B c c0 (discover B enc dec mode_read l c) (discover B enc dec mode_scan l c0).
 Proof. exact (discover_cache_eq_scan B enc dec dec_enc). Qed.
 
@@ -61,15 +62,31 @@ Proof. exact (fun r => f_equal enc (to_stored_stored_fields r)). Qed.
 
 (** Admission, for every asset served in any mode: the reference representation lasts exactly
     LoopDurMS milliseconds (1000*D = loopMS*ts in exact arithmetic whenever the int64 products do
-    not overflow) and every representation of the reference content type lasts LoopDurMS ms. *)
+    not overflow); every representation has a contiguous table and - unless it has no timescale or
+    is audio re-segmented against a non-audio reference - exactly the duration of the reference
+    (D_r*ts_ref = D_ref*ts_r); pre-encrypted audio lasts LoopDurMS ms.  ([rep_admitted]) *)
 Theorem C15_admission : forall md l c A c' p a,
   discover B enc dec md l c = Ok (A, c') -> In (p, a) A ->
   exists k ref,
     a_ref a = Some k /\ lookup k (a_reps a) = Some ref /\
     dur_ms ref = Ok (a_loop a) /\
     (admission_range ref -> 1000 * rduration (r_segs ref) = a_loop a * r_mediats ref) /\
-    (forall k' r, In (k', r) (a_reps a) -> (r_ctype r = r_ctype ref \/ r_preenc r = true) -> dur_ms r = Ok (a_loop a)).
+    (forall k' r, In (k', r) (a_reps a) -> rep_admitted ref (a_loop a) r).
 Proof. exact (served_asset_admission B enc dec). Qed.
+
+(** The loaded segment table of every served representation is contiguous: whatever the
+    addressing ($Number$ by construction, $Time$ by the test in consolidateAsset), whatever the
+    start mode and the state of the cache directory. *)
+Theorem C15_contiguous_served : forall md l c A c' p a k r,
+  discover B enc dec md l c = Ok (A, c') -> In (p, a) A -> In (k, r) (a_reps a) ->
+  contiguous (segs (trep r)).
+Proof. exact (served_tables_contiguous B enc dec). Qed.
+
+(** loadAsset is atomic: an error while loading an MPD leaves the asset as it was (no MPD
+    registered with some of its representations missing). *)
+Theorem C15_load_asset_atomic : forall md apath name o a c a' c' e,
+  load_asset B enc dec md apath name o a c = Ok (a', c', Some e) -> a' = a.
+Proof. exact (load_asset_atomic B enc dec). Qed.
 
 (** ... which is the hypothesis [wf_loop] of the timeline theorems (C01, C02, C04 ...): the loop
     duration of the served reference table is exactly LoopDurMS milliseconds. *)
@@ -132,36 +149,40 @@ Theorem C15_contiguous_time : forall tfile es dsd segs dsd',
                (ccontig segs <-> ccontig rows).
 Proof. exact time_table_contig_iff. Qed.
 
-(** Refuted: "every served table is contiguous" fails for $Time$ representations whose files have a gap. *)
-Theorem C15_contiguous_time_refuted :
+(** The loader itself does not adjust $Time$ tables: files with a gap are loaded with the gap
+    ([time_gap_is_served]: rows (0,2000) (2300,4300)); such an asset is then left out. *)
+Theorem C15_contiguous_time_gap_loaded :
   exists tfile es segs dsd', time_loop tfile es 0 40 [] = Ok (segs, dsd') /\ ~ ccontig segs.
 Proof. exact time_gap_is_served. Qed.
 
-(** Refuted: with an unreadable cache file the cache-started server does not serve what the
-    scanning server serves.  testpic_2s in miniature, V300_data.json.gz unreadable: served with A48
-    only (reference A48) although the registered MPD lists V300; the scanning server serves both. *)
-Theorem C15_partial_asset_refuted :
+Theorem C15_time_gap_left_out :
+  match scan_rep w_tgap with Ok r => map (fun s => (c_st s, c_en s)) (r_segs r) | _ => [] end = [(0, 2000); (2300, 4300)] /\
+  served_ids (discover stored enc0 dec0 mode_scan w_l4 (fun _ _ => CAbsent)) = [].
+Proof. exact (conj w_time_gap_loaded w_time_gap_left_out). Qed.
+
+(** An unreadable cache file does not change what is served (formerly refuted: the miniature
+    testpic_2s with V300_data.json.gz unreadable was served with A48 only; two video representations
+    of different duration were served when the file of one was unreadable). *)
+Theorem C15_unreadable_file_harmless :
   served_ids (discover stored enc0 dec0 mode_read w_l w_cache_broken)
-    = [("testpic_2s", ["Manifest.mpd"], ["A48"], Some "A48", 8000)] /\
-  served_ids (discover stored enc0 dec0 mode_scan w_l (fun _ _ => CAbsent))
-    = [("testpic_2s", ["Manifest.mpd"], ["A48"; "V300"], Some "V300", 8000)].
-Proof. exact (conj w_served_broken w_served_scan). Qed.
+    = served_ids (discover stored enc0 dec0 mode_scan w_l (fun _ _ => CAbsent)) /\
+  served_ids (discover stored enc0 dec0 mode_read w_l2 w_cache2_broken) = [].
+Proof. exact (conj (eq_trans w_served_broken (eq_sym w_served_scan)) w_differ_broken). Qed.
 
-(** Refuted, other direction: an asset that scanning leaves out (two video representations of 8 s
-    and 6 s) is served when the cache file of one of them is unreadable. *)
-Theorem C15_partial_asset_admits_refuted :
-  discover stored enc0 dec0 mode_scan w_l2 (fun _ _ => CAbsent) = Ok ([], fun _ _ => CAbsent) /\
-  served_ids (discover stored enc0 dec0 mode_read w_l2 w_cache2_broken)
-    = [("testpic_2s", ["Manifest.mpd"], ["V300"], Some "V300", 8000)].
-Proof. exact (conj w_differ_scan w_differ_broken). Qed.
+(** Representations that disagree in duration are left out, whatever their content type (formerly
+    refuted: video 8 s with a text representation of 6 s was admitted). *)
+Theorem C15_admission_other_types :
+  served_ids (discover stored enc0 dec0 mode_scan w_l3 (fun _ _ => CAbsent)) = [].
+Proof. exact w_text_shorter_left_out. Qed.
 
-(** Refuted: "representations that disagree in duration are left out" holds for the reference
-    content type only: video 8 s with a text representation of 6 s is admitted. *)
-Theorem C15_admission_other_types_refuted :
-  served_ids (discover stored enc0 dec0 mode_scan w_l3 (fun _ _ => CAbsent))
-    = [("vt", ["Manifest.mpd"], ["V300"; "T1"], Some "V300", 8000)] /\
-  exists r, scan_rep w_t1 = Ok r /\ dur_ms r = Ok 6000.
-Proof. exact (conj w_text_shorter_admitted w_text_shorter_duration). Qed.
+(** A media file without fragments is a load error (formerly a start-up panic), and the asset
+    whose MPD needs it is left out; thumbnails without a duration (timescale 0) do not stop the
+    start-up. *)
+Theorem C15_no_fragments_left_out :
+  served_ids (discover stored enc0 dec0 mode_scan (w_mpds [(false, w_a48)] [(false, w_v_nofrag)]) (fun _ _ => CAbsent)) = [] /\
+  served_ids (discover stored enc0 dec0 mode_scan w_l5 (fun _ _ => CAbsent))
+    = [("th", ["Manifest.mpd"], ["V300"; "thumbs"], Some "V300", 8000)].
+Proof. exact (conj w_nofrag_left_out w_thumbs_ts0_served). Qed.
 
 (** The hypothesis [init_ts_ok] of C15_same_tables is needed: with an init timescale of 0 the
     cache path resets DefaultSampleDuration. *)
@@ -173,7 +194,7 @@ Proof. exact w_ts0_differs. Qed.
 (** Non-vacuity: the directory written for the miniature testpic_2s is good, and the cache-started
     server serves the asset with both representations, reference V300, loop 8000 ms. *)
 Example C15_example :
-  cache_good stored enc0 w_cache w_l /\
+  cache_good stored enc0 dec0 w_cache w_l /\
   served_ids (discover stored enc0 dec0 mode_read w_l w_cache)
     = [("testpic_2s", ["Manifest.mpd"], ["A48"; "V300"], Some "V300", 8000)].
 Proof. exact (conj w_cache_good w_served_cache). Qed.
@@ -192,9 +213,12 @@ Print Assumptions C15_admission_is_wf_loop.
 Print Assumptions C15_contiguous_number.
 Print Assumptions C15_contiguous_number_served.
 Print Assumptions C15_contiguous_time.
-Print Assumptions C15_contiguous_time_refuted.
-Print Assumptions C15_partial_asset_refuted.
-Print Assumptions C15_partial_asset_admits_refuted.
-Print Assumptions C15_admission_other_types_refuted.
+Print Assumptions C15_contiguous_served.
+Print Assumptions C15_load_asset_atomic.
+Print Assumptions C15_contiguous_time_gap_loaded.
+Print Assumptions C15_time_gap_left_out.
+Print Assumptions C15_unreadable_file_harmless.
+Print Assumptions C15_admission_other_types.
+Print Assumptions C15_no_fragments_left_out.
 Print Assumptions C15_same_tables_ts0_refuted.
 Print Assumptions C15_example.
